@@ -586,7 +586,39 @@ def run_overflow(chk, spec):
 			chk.fail("the column dtype covers what was assigned", f"assign/untruthful-after-assign/{spec['key'][0]}/overflow", f"{spec!r}: {msg}")
 
 
-RUNNERS = {"sequence": run_sequence, "overflow": run_overflow, "assign": run_assign, "iterfault": run_iterfault, "table_assign": run_table_assign, "rename": run_rename}
+def run_selfmask(chk, spec):
+	"""the row selector of a table assignment is one of the table's own columns (a live bool column as mask, a live int column as index vector) and is
+	itself among the columns written: the addressed cells are those the selector names when the assignment is made"""
+	cols = [list(c) for c in spec["cols"]]
+	names = list(spec["names"])
+	t = Table([Vector(list(c), name=nm) for c, nm in zip(cols, names)])
+	sel_pos = spec["selector"]
+	sel = t.cols()[sel_pos] if spec["via"] == "cols" else t[names[sel_pos]]
+	selvals = list(cols[sel_pos])
+	n = len(selvals)
+	rows = [i for i, m in enumerate(selvals) if m] if spec["kind"] == "mask" else [int(i) for i in selvals]
+	targets = spec["targets"]
+	model = [list(c) for c in cols]
+	for j in targets:
+		for i in rows:
+			model[j][i] = spec["value"]
+	key_cols = [names[j] for j in targets] if spec["colform"] == "names" else (list(targets) if spec["colform"] == "ints" else tuple(names[j] for j in targets))
+	before = [list(c._underlying) for c in t.cols()]
+	o = call(t.__setitem__, (sel, key_cols), spec["value"])
+	chk.judged("table-assign", ("selfmask", spec["kind"], tuple(targets), sel_pos, spec["colform"]))
+	got = [list(c._underlying) for c in t.cols()]
+	if not o.ok:
+		if got != before:
+			chk.fail("an assignment that fails for any reason leaves the table as it was", f"table-assign/self-selector/not-atomic/{type(o.exc).__name__}", f"{spec!r}: raised {o!r}; {before} -> {got}")
+		else:
+			chk.counters["selfmask-refused"] += 1
+		return
+	if any(not M.eq_list(g, e) for g, e in zip(got, model)):
+		chk.fail("table region assignment writes exactly the addressed cells (the rows the selector names when the assignment is made)", f"table-assign/self-selector/{spec['kind']}/wrong-cells",
+			f"{spec!r}: table now {got}, list model {model}")
+
+
+RUNNERS = {"selfmask": run_selfmask, "sequence": run_sequence, "overflow": run_overflow, "assign": run_assign, "iterfault": run_iterfault, "table_assign": run_table_assign, "rename": run_rename}
 
 COLKINDS = ["bool", "int", "float", "complex", "str", "date", "datetime", "object", "bytes"]
 
@@ -660,6 +692,30 @@ def run(chk):
 		if rng.random() < 0.3:
 			steps = [rng.choice(["cell-promote", "region-table-full", "region-table"])] + steps
 		chk.case("sequence", {"seed": rng.randrange(10 ** 9), "n": rng.choice([1, 2, 3, 4]), "c": rng.choice([1, 2, 3]), "steps": steps}, "assign-sequence")
+	for kind in ("mask", "index"):
+		for n in (2, 3, 5):
+			for rep in range(3 if chk.quick() else 12):
+				if kind == "mask":
+					sel = [rng.random() < 0.5 for _ in range(n)]
+					if not any(sel):
+						sel[rng.randrange(n)] = True
+					other = [rng.random() < 0.5 for _ in range(n)]
+					third = [True] * n
+					value = False
+				else:
+					sel = [rng.randrange(n) for _ in range(n)]
+					other = [rng.randrange(n) for _ in range(n)]
+					third = [9] * n
+					value = rng.randrange(n)
+				order = rng.choice([[0, 1, 2], [1, 0, 2], [2, 1, 0]])      # position of the selector column among the columns
+				cols3 = [None, None, None]
+				cols3[order[0]], cols3[order[1]], cols3[order[2]] = sel, other, third
+				names3 = ["s", "o", "z"]
+				nm = [None, None, None]
+				nm[order[0]], nm[order[1]], nm[order[2]] = names3
+				for targets in ([order[0], order[1]], [order[1], order[0]], [order[0], order[1], order[2]], [order[2], order[0]], [order[1]]):
+					chk.case("selfmask", {"kind": kind, "cols": cols3, "names": nm, "selector": order[0], "targets": targets, "value": value,
+						"via": rng.choice(["cols", "name"]), "colform": rng.choice(["names", "ints", "tuple"])}, "table-assign-self-selector")
 	huge = [10 ** 400, -(10 ** 400), 2 ** 1024]
 	for h in huge:
 		for vals in ([h, 1], [1, h, None], [h]):
